@@ -128,8 +128,22 @@ def rule_p2(F):
                             out.add((mm.group(1), mm.group(2)))
                             found = True
         return out if found else None
+    rld = hir.LocalDefs(rb.hir)
+
+    def guard_expr(g):
+        """A guard that is a local bool (`let mixes = matches!(..)`) stands for its initialiser."""
+        g0 = hir.strip(g)
+        if g0.get("k") == "path":
+            l = hir.res_local(g0)
+            d = rld.get(l) if l is not None else None
+            if d and d[1] is not None:
+                return d[1]
+        return g
     for arm in cm["arms"]:
+        alts = []
         for a in hir.pat_alternatives(arm["pat"]):
+            alts += ["Ordering::Less", "Ordering::Greater", "Ordering::Equal"] if a == "_" else [a]
+        for a in alts:
             if not a.startswith("Ordering::"):
                 continue
             body = hir.strip(arm["body"])
@@ -139,7 +153,7 @@ def rule_p2(F):
                 verdict = hir.last(hir.short_result(arm["body"]) or "")
             gp = None
             if arm.get("guard") is not None:
-                gp = pairs_of(arm["guard"])
+                gp = pairs_of(guard_expr(arm["guard"]))
                 if gp is None:
                     guard_unknown = True
             ord_rows.append((a.split("::")[1], gp, verdict, arm.get("guard") is not None))
